@@ -120,6 +120,10 @@ def build(features):
     types.append(gql.obj(qn, qfields))
     roots = {"query": qn}
     docs = [("Q", Doc([Op("query", "Op", sel, vars_)]))]
+    if late_ext:
+        # the interface selected without naming its implementers: the member that joined through the extension is
+        # then visible only as a runtime type
+        docs.append(("Qplain", Doc([Op("query", "Op", [Field("node", [TN(), Field("id")])])])))
     if "mutation" in f:
         types.append(gql.obj(mn, [FieldDef("bump", "Int!", args=[("by", "Int")])]))
         roots["mutation"] = mn
